@@ -120,13 +120,17 @@ pub(super) fn verify_nsec3(
     // <base32-hash>.soa.name NSEC3 <data>
     // we extract (<base32-hash>, <data>) pair from deeply nested structures
     let mut pairs = Vec::with_capacity(nsec3s.len());
+    let mut zone = soa.cloned();
     for (name, data) in nsec3s {
         let Some((base32_hashed_name, base)) = split_first_label(name) else {
             return nsec3_yield(Proof::Bogus, query, "record name format is invalid");
         };
 
-        // If the SOA record is present, the base name of any NSEC3 records must match it.
-        if soa.is_some_and(|soa| &base != soa) {
+        // If the SOA record is present, the base name of any NSEC3 records must match it. Without
+        // it (as in a wildcard answer response) the zone is not known, but the records must still
+        // all be from a single zone, and that zone must contain the query name.
+        let zone = zone.get_or_insert_with(|| base.clone());
+        if &base != zone || (soa.is_none() && !zone.zone_of(&query.name)) {
             return nsec3_yield(Proof::Bogus, query, "record name is not in the zone");
         }
 
